@@ -239,6 +239,26 @@ static void invalid_objects() {
   EXPECT_ERROR("get_parameter empty path", m.get_parameter(std::vector<std::string>{}));
   EXPECT_ERROR("get_submodel empty path", m.get_submodel(std::vector<std::string>{}));
   EXPECT_ERROR("model add duplicate name", (m.add("p", pinv)));
+  {
+    // a rejected add (same object under a second name) must leave the registry unchanged:
+    // the name stays free and the enumeration is the same
+    Parameter p2(Shape({2}), V{1, 2}, dev);
+    Model sub;
+    const size_t n0 = m.get_all_parameters().size();
+    EXPECT_ERROR("model add same parameter under a second name", m.add("q", p));
+    if (m.get_all_parameters().size() != n0) fail("rejected Model::add", "enumeration changed");
+    std::string r1 = outcome([&]() { m.add("q", p2); });
+    if (r1 != "ok") fail("Model::add after a rejected add of the same name", "name was left reserved: " + r1); else ok("name free");
+    m.add("s", sub);
+    EXPECT_ERROR("model add same submodel under a second name", m.add("t", sub));
+    Model sub2;
+    std::string r2 = outcome([&]() { m.add("t", sub2); });
+    if (r2 != "ok") fail("Model::add(submodel) after a rejected add of the same name", "name was left reserved: " + r2); else ok("name free (submodel)");
+    EXPECT_ERROR("model add itself", m.add("self", m));
+    Model top; top.add("m", m);
+    EXPECT_ERROR("model add ancestor (cycle)", m.add("up", top));
+    if (m.get_all_parameters().size() != n0 + 1) fail("model after rejected adds", "enumeration changed"); else ok("model unchanged");
+  }
   // known finding D7: unknown statistics name raises std::out_of_range
   std::string d7 = outcome([&]() { p.stats("nope"); });
   std::cout << "D7 " << d7 << "\n";
